@@ -1,6 +1,6 @@
 from props import cfg
 
-CFG = cfg('C03', extract='Ex_C03', driver='c03',
+CFG = cfg('C03', refine=['Refine_encrypt'], extract='Ex_C03', driver='c03',
           rule='unit level (model function vs implementation function on the same octets): all 256 algorithm ids (membership, key and block size); '
                'encrypt_sk m with a stub key; decrypt_sk on chosen m (good / bad checksum / short / long / invalid algorithm); RSA left padding; '
                'the SEIPD gate on chosen plaintexts under every available cipher (valid, MDC damaged, repeat damaged, short, MDC over the wrong range); '
